@@ -182,7 +182,7 @@ class Sim:
 
     # ---- one invocation of the script ----
     def invoke(self):
-        mod = self.mod
+        mod = self.mod = load_script()          # every invocation is a new process: nothing survives in module state
         real = {"mkdir": os.mkdir, "rmdir": os.rmdir, "unlink": os.unlink}
         sim = self
 
@@ -225,9 +225,9 @@ class Sim:
         orig_scan = mod.examine_output_dir_to_determine_current_iteration
         orig_sel = mod.get_selected_plates
 
-        def scan(output_dir, batch_size):
+        def scan(*a, **k):
             try:
-                r = orig_scan(output_dir, batch_size)
+                r = orig_scan(*a, **k)
             except RuntimeError as e:
                 m = re.search(r"continue simulation: (.*)$", str(e))
                 d = sim.step_of(m.group(1)) if m else None
@@ -236,8 +236,8 @@ class Sim:
             sim.events.append({"ev": "scan", "raised": False, "dir": [99, 99], "i": r[0], "j": r[1]})
             return r
 
-        def sel(d):
-            r = orig_sel(d)
+        def sel(*a, **k):
+            r = orig_sel(*a, **k)
             sim.events.append({"ev": "decide", "excl_steps": sorted([int(y) for y in x.split("-")[1:3]] for x in (r or []))})
             return r
         real_rmtree = shutil.rmtree
